@@ -5,6 +5,7 @@
      E <id> <sexpr>                    elaborate, fold, rt_eval
      A <id> <ty> <lit> <sexpr>         assignment  x = e  with x : ty currently holding lit
      S <id> <lit>                      text of the number when concatenated to a string
+     N <id> <sexpr>                    enumerator initialiser: efold (enumred.c) and rt_eval
    <sexpr> ::= (L <kind> <num>) | (U <unop> <sexpr>) | (B <binop> <sexpr> <sexpr>)
              | (P <sexpr>) | (C <sexpr> <sexpr> <sexpr>)
    <lit>   ::= (L <kind> <num>)        kind: b i l f d e ; num: [-]hex digits (value for b i l e,
@@ -222,6 +223,29 @@ let do_line (line : string) : unit =
        Printf.printf "%s T=%s FOLD=%s RT=%s CLEAN=%s STRICT=%s UB=%s\n" id (string_of_ty t) f
          (string_of_outcome (M.rt_eval e))
          (b01 (M.emit_ok e && M.no_enum_div e)) (b01 (M.strict e)) (b01 (ub_of e)))
+  | "N" :: id :: rest ->
+    (* enumerator initialiser: enumred.c model (efold) on the tree as written (enumerator
+       references = LEnum leaves) and rt_eval on the same tree with the references replaced by
+       int leaves (the run-time counterpart has its operands in int variables) *)
+    let (sx, _) = parse_sx rest in
+    let s = sexpr_of sx in
+    let rec ints = function
+      | M.SLit (M.LEnum z) -> M.SLit (M.LInt z)
+      | M.SLit l -> M.SLit l
+      | M.SUn (o, a) -> M.SUn (o, ints a)
+      | M.SBin (o, a, b) -> M.SBin (o, ints a, ints b)
+      | M.SSup a -> M.SSup (ints a)
+      | M.SCond (c, a, b) -> M.SCond (ints c, ints a, ints b) in
+    (match M.elab s, M.elab (ints s) with
+     | Some (e, _), Some (ei, ti) ->
+       let f = match M.efold e with
+         | M.FOk (M.ELit (M.LInt z)) -> "LIT i " ^ string_of_z z
+         | M.FOk _ -> "RESIDUAL"
+         | M.FReject -> "REJECT"
+         | M.FCrash -> "CRASH" in
+       Printf.printf "%s T=%s FOLD=%s RT=%s CLEAN=%s STRICT=%s UB=%s\n" id (string_of_ty ti) f
+         (string_of_outcome (M.rt_eval ei)) (b01 (M.emit_ok ei)) (b01 (M.strict ei)) (b01 (ub_of ei))
+     | _, _ -> Printf.printf "%s T=REJECT\n" id)
   | "A" :: id :: ty :: rest ->
     let (lx, rest') = parse_sx rest in
     let old = match lx with
